@@ -23,6 +23,9 @@ type SlotScope struct {
 	// Slots maps slot names to their content.
 	// Empty string key is the default slot.
 	Slots map[string]*SlotContent
+	// parent is the slot scope that was current where the include tag was
+	// written; supplied content is evaluated against it.
+	parent *SlotScope
 }
 
 // NewSlotScope creates a new SlotScope for a component.
@@ -74,6 +77,11 @@ func (v *Vue) evalSlot(ctx VueContext, node *html.Node, slotScope *SlotScope) ([
 		if slotContent := slotScope.GetSlot(slotName); slotContent != nil {
 			// Found explicit slot content - evaluate it with the scoped props
 			result := []*html.Node{}
+
+			// The content was written by the includer: a <slot> inside it refers
+			// to the includer's own slots, not to the slots of this component
+			// (which would make a passed-on <slot> resolve to itself forever).
+			ctx.SlotScope = slotScope.parent
 
 			// If the slot content is a template with v-slot, evaluate it with the props
 			if slotContent.TemplateNode != nil {
